@@ -5,7 +5,6 @@
 From Coq Require Import ZArith List Bool Lia ZifyBool.
 Import ListNotations.
 From Urwid Require Import PyBase PyList TextLayout TextLayoutBytes TextLayoutModes TextLayoutFacts TextLayoutProofs.
-From Urwid Require WidthFacts.
 Open Scope Z_scope.
 
 Arguments Z.add : simpl never.
@@ -17,6 +16,29 @@ Arguments Z.leb : simpl never.
 Arguments Z.eqb : simpl never.
 Arguments Z.of_nat : simpl never.
 Arguments Z.to_nat : simpl never.
+
+(* generic list facts (kept local so that this file depends on no generated file) *)
+Module LF.
+Lemma to_nat_zlen {A} (l : list A) : Z.to_nat (zlen l) = length l.
+Proof. unfold zlen. apply Nat2Z.id. Qed.
+Lemma nthz_app_mid {A} (pre : list A) c rest : nthz (pre ++ c :: rest) (zlen pre) = Some c.
+Proof.
+  unfold nthz. pose proof (zlen_nonneg pre). destruct (zlen pre <? 0) eqn:E; [lia|].
+  rewrite to_nat_zlen, nth_error_app2 by lia. now rewrite Nat.sub_diag.
+Qed.
+Lemma takez_dropz_split {A} (l : list A) a b :
+  0 <= a <= b -> b <= zlen l -> l = takez a l ++ takez (b - a) (dropz a l) ++ dropz b l.
+Proof.
+  intros H1 H2. unfold takez, dropz.
+  rewrite <- (firstn_skipn (Z.to_nat a) l) at 1. f_equal.
+  rewrite <- (firstn_skipn (Z.to_nat (b - a)) (skipn (Z.to_nat a) l)) at 1. f_equal.
+  rewrite <- skipn_add. f_equal. lia.
+Qed.
+Lemma takez_app_exact {A} (a b : list A) : takez (zlen a) (a ++ b) = a.
+Proof. unfold takez. rewrite to_nat_zlen. rewrite firstn_app, Nat.sub_diag, firstn_all. cbn. apply app_nil_r. Qed.
+Lemma dropz_app_exact {A} (a b : list A) : dropz (zlen a) (a ++ b) = b.
+Proof. unfold dropz. rewrite to_nat_zlen. rewrite skipn_app, Nat.sub_diag, skipn_all. reflexivity. Qed.
+End LF.
 
 Lemma gnthz_In {A} (l : list A) k x : nthz l k = Some x -> In x l.
 Proof. unfold nthz. destruct (k <? 0); [discriminate|]. apply nth_error_In. Qed.
@@ -100,12 +122,12 @@ Lemma B_0 : B 0 = 0.
 Proof. reflexivity. Qed.
 
 Lemma B_len : B len = zlen bs.
-Proof. unfold gboff, takez. rewrite WidthFacts.to_nat_zlen, firstn_all. reflexivity. Qed.
+Proof. unfold gboff, takez. rewrite LF.to_nat_zlen, firstn_all. reflexivity. Qed.
 
 Lemma B_split a b : 0 <= a <= b -> b <= len ->
   bs = F (takez a s) ++ F (slice s a b) ++ F (dropz b s) /\ B b = B a + zlen (F (slice s a b)).
 Proof.
-  intros H1 H2. pose proof (WidthFacts.takez_dropz_split s a b H1 H2) as E. split.
+  intros H1 H2. pose proof (LF.takez_dropz_split s a b H1 H2) as E. split.
   - rewrite <- !flat_map_app. f_equal. exact E.
   - unfold gboff. rewrite <- zlen_app, <- flat_map_app. f_equal. f_equal.
     assert (S0 : forall x, slice s 0 x = takez x s).
@@ -148,8 +170,8 @@ Lemma slice_of_bytes a b : 0 <= a <= b -> b <= len -> slice bs (B a) (B b) = F (
 Proof.
   intros H1 H2. destruct (B_split a b H1 H2) as (E1 & E2). unfold slice at 1.
   rewrite E2. replace (B a + zlen (F (slice s a b)) - B a) with (zlen (F (slice s a b))) by lia.
-  rewrite E1. change (B a) with (zlen (F (takez a s))). rewrite WidthFacts.dropz_app_exact.
-  apply WidthFacts.takez_app_exact.
+  rewrite E1. change (B a) with (zlen (F (takez a s))). rewrite LF.dropz_app_exact.
+  apply LF.takez_app_exact.
 Qed.
 
 Variable cw : Z -> Z.
@@ -173,7 +195,7 @@ Lemma byte_at k : 0 <= k < len -> exists c h, nthz s k = Some c /\ nthz bs (B k)
 Proof.
   intros Hk. destruct (char_at k Hk) as (c & N & Ic & Es & Ek & _).
   destruct (Hhead c Ic) as (h & r & Eh & H1 & H2 & _). exists c, h. split; [exact N|]. split; [|split; assumption].
-  rewrite Es, Ek, Eh. apply WidthFacts.nthz_app_mid.
+  rewrite Es, Ek, Eh. apply LF.nthz_app_mid.
 Qed.
 
 Lemma byte_eq_ascii k c h x : nthz s k = Some c -> nthz bs (B k) = Some h -> x = SP \/ x = NL -> (h =? x) = (c =? x).
@@ -557,6 +579,8 @@ Definition lres_line_sim (rb r : lres line) : Prop :=
   | _, _ => False
   end.
 
+Ltac sim_tac := repeat (first [apply Forall2_nil | apply Forall2_cons | apply SS_text | apply SS_pad | apply SS_shift | apply SS_ins]); try lia.
+
 Lemma seg_sim_sc xb x : seg_sim xb x -> seg_sc xb = seg_sc x /\ seg_valid xb = seg_valid x.
 Proof. intros H; inversion H; subst; split; reflexivity. Qed.
 
@@ -572,7 +596,7 @@ Proof.
 Qed.
 
 Lemma B_zero_iff e : 0 <= e <= len -> (B e =? 0) = (e =? 0).
-Proof. intros H. rewrite <- B_0. apply B_eqb; lia. Qed.
+Proof. intros H. pose proof (B_eqb e 0 H ltac:(pose proof (zlen_nonneg s); lia)) as Q. rewrite B_0 in Q. exact Q. Qed.
 
 (* the segment loop of apply_text_layout *)
 Lemma render_segs_sim lb l : line_sim lb l -> forall row, render_segs s l = LOk row -> render_segs bs lb = LOk (F row).
@@ -589,7 +613,7 @@ Proof.
       - rewrite B_zero_iff by lia. destruct (e =? 0); inversion E1; subst; [now rewrite F_spaces|].
         f_equal. apply slice_of_bytes; lia.
       - destruct txt as [|c txt]; inversion E1; subst; [cbn [flat_map]; now rewrite F_spaces|].
-        destruct (F (c :: txt)) eqn:EF; [apply F_nil_iff in EF; discriminate | reflexivity].
+        destruct (F (c :: txt)) eqn:EF; [apply (proj1 (F_nil_iff _)) in EF; discriminate | reflexivity].
       - inversion E1; subst. now rewrite F_spaces.
       - inversion E1; subst. now rewrite F_spaces. }
     rewrite E1b. cbn [lbind]. rewrite flat_map_app. reflexivity.
@@ -598,7 +622,7 @@ Qed.
 (* util.calc_trim_text *)
 Lemma g_trim_sim a b sc0 ec : 0 <= a <= b -> b <= len -> 0 <= sc0 -> sc0 < ec ->
   match calc_trim_text cw s a b sc0 ec with
-  | LOk (sp, ep, pl, pr) => calc_trim_text_g P bs (B a) (B b) sc0 ec = LOk (B sp, B ep, pl, pr) /\ a <= sp <= b /\ a <= ep <= b
+  | LOk (sp, ep, pl, pr) => calc_trim_text_g P bs (B a) (B b) sc0 ec = LOk (B sp, B ep, pl, pr) /\ a <= sp <= ep /\ ep <= b
   | LCant => False
   | LErr e => False
   end.
@@ -628,7 +652,7 @@ Proof.
         exists p2, 1. repeat split; try lia.
       + exists p1, 0. repeat split; try lia.
     - exists a, 0. repeat split; try lia. }
-  destruct Hfirst as (sp & pl & Hsp & Hpl & -> & ->). cbn [lbind].
+  destruct Hfirst as (sp & pl & Hspr & Hpl & -> & ->). cbn [lbind].
   destruct (HPctp sp b (ec - sc0 - pl) ltac:(lia) H2 ltac:(lia)) as (p3 & c3 & E5 & Hp3 & E6). rewrite E5, E6. cbn [lbind to_lres].
   destruct (c3 <? ec - sc0 - pl); cbn [to_lres]; repeat split; try lia.
 Qed.
@@ -638,17 +662,17 @@ Lemma subseg_sim xb x st en : seg_sim xb x -> (forall sc o txt, x <> SIns sc o t
   lres_line_sim (subseg_g P bs xb st en) (subseg cw s x st en).
 Proof.
   intros Hx Hni. unfold subseg_g, subseg. destruct (seg_sim_sc _ _ Hx) as (Hsc & _). rewrite Hsc.
-  destruct (Z.min en (seg_sc x) <=? Z.max st 0) eqn:E0; [constructor|].
+  destruct (Z.min en (seg_sc x) <=? Z.max st 0) eqn:E0; [cbn [lres_line_sim]; unfold line_sim; sim_tac|].
   inversion Hx; subst.
-  - rewrite B_zero_iff by lia. destruct (e =? 0) eqn:Ee; [repeat constructor|].
+  - rewrite B_zero_iff by lia. destruct (e =? 0) eqn:Ee; [cbn [lres_line_sim]; unfold line_sim; sim_tac|].
     pose proof (g_trim_sim o e (Z.max st 0) (Z.min en sc) ltac:(lia) ltac:(lia) ltac:(lia) ltac:(cbn [seg_sc] in E0; lia)) as Q.
     cbn [seg_sc]. destruct (calc_trim_text cw s o e (Z.max st 0) (Z.min en sc)) as [[[[sp ep] pl] pr]| |]; try contradiction.
-    destruct Q as (-> & Hsp & Hep). cbn [lbind].
+    destruct Q as (-> & Hspr & Hep). cbn [lbind].
     destruct (pl =? 0); destruct (Z.min en sc - Z.max st 0 - pl - pr =? 0); destruct (pr =? 0); cbn [app lres_line_sim];
-      repeat constructor; lia.
+      unfold line_sim; sim_tac.
   - exfalso. eapply Hni; reflexivity.
-  - repeat constructor.
-  - repeat constructor.
+  - cbn [lres_line_sim]; unfold line_sim; sim_tac.
+  - cbn [lres_line_sim]; unfold line_sim; sim_tac.
 Qed.
 
 Lemma line_sim_app a1 a2 b1 b2 : line_sim a1 a2 -> line_sim b1 b2 -> line_sim (a1 ++ b1) (a2 ++ b2).
@@ -679,7 +703,7 @@ Proof.
         destruct (subseg_g P bs xb 0 (en - x)) as [sb| |]; destruct (subseg cw s x0 0 (en - x)) as [sub| |];
           cbn [lres_line_sim lbind] in *; try contradiction; try exact Q.
         apply line_sim_app; assumption.
-      * apply IH; [assumption | apply line_sim_app; [assumption | repeat constructor; assumption]].
+      * apply IH; [assumption | apply line_sim_app; [assumption | unfold line_sim; apply Forall2_cons; [assumption | apply Forall2_nil]]].
 Qed.
 
 (* a line that fits is left as it is, in every mode (no position query is made) *)
@@ -701,11 +725,11 @@ Proof.
   intros Hs Hcase E. unfold render_line, render_line_g in *. unfold trim_line in E.
   assert (Htl : lres_line_sim (trim_line_loop_g P bs lb 0 width 0 []) (trim_line_loop cw s l 0 width 0 [])).
   { destruct Hcase as [Hfit | Hni].
-    - rewrite (trim_line_loop_id cw s width width_pos l [] Hfit).
+    - rewrite (trim_line_loop_id cw cw_range s width width_pos l [] Hfit).
       rewrite trim_line_loop_g_id; [exact Hs|].
       clear - Hs Hfit. induction Hs as [|xb x lb l Hx Hl IH]; [constructor|]. inversion Hfit; subst.
       constructor; [rewrite (proj1 (seg_sim_sc _ _ Hx)); assumption | apply IH; assumption].
-    - apply trim_line_sim; [assumption | assumption | constructor]. }
+    - apply trim_line_sim; [assumption | assumption | apply Forall2_nil]. }
   destruct (trim_line_loop cw s l 0 width 0 []) as [tl| |]; cbn [lbind] in E; try discriminate.
   destruct (trim_line_loop_g P bs lb 0 width 0 []) as [tlb| |]; cbn [lres_line_sim] in Htl; try contradiction.
   cbn [lbind]. destruct (render_segs s tl) as [r| |] eqn:Er; cbn [lbind] in E; try discriminate.
@@ -713,6 +737,57 @@ Proof.
   unfold calc_width_g. rewrite Hroww. cbn [to_lres lbind].
   destruct (width <? sumw cw r); [discriminate|]. inversion E; subst.
   rewrite flat_map_app, F_spaces. reflexivity.
+Qed.
+
+(* the lines of a layout: text ranges inside the text, and the line fits or carries no inserted text *)
+Definition line_ok (l : line) : Prop :=
+  (forall sc o e, In (SText sc o e) l -> 0 <= o <= e /\ e <= len) /\
+  (Forall (fun x => 0 <= seg_sc x <= width) l \/ forall sc o txt, ~ In (SIns sc o txt) l).
+
+Lemma gmap_line_sim l : (forall sc o e, In (SText sc o e) l -> 0 <= o <= e /\ e <= len) -> line_sim (gmap_line enc B l) l.
+Proof.
+  induction l as [|x l IH]; intros H; [apply Forall2_nil|]. cbn [gmap_line map]. apply Forall2_cons.
+  - destruct x as [sc o e|sc o txt|sc o|sc]; cbn [gmap_seg]; [|apply SS_ins | apply SS_pad | apply SS_shift].
+    destruct (H sc o e (or_introl eq_refl)). apply SS_text; assumption.
+  - apply IH. intros sc o e I. apply (H sc o e). right; exact I.
+Qed.
+
+Theorem render_lines_sim L : Forall line_ok L -> forall rows, render_lines cw s width L = LOk rows ->
+  render_lines_g P bs width (gmap_layout enc B L) = LOk (map F rows).
+Proof.
+  induction 1 as [|l L Hl HL IH]; intros rows E; cbn [render_lines gmap_layout map render_lines_g] in *.
+  - inversion E; reflexivity.
+  - destruct (render_line cw s width l) as [r| |] eqn:E1; cbn [lbind] in E; try discriminate.
+    destruct (render_lines cw s width L) as [rs| |] eqn:E2; cbn [lbind] in E; try discriminate.
+    inversion E; subst rows. destruct Hl as (Hb & Hc).
+    rewrite (render_line_sim (gmap_line enc B l) l r (gmap_line_sim l Hb) Hc E1). cbn [lbind].
+    unfold gmap_layout in IH. rewrite (IH rs eq_refl). reflexivity.
+Qed.
+
+(* Text.render / Text.rows on the bytes = the encoding of the str rows *)
+Theorem g_text_render_sim align wrap ell0 L rows :
+  layout cw s width align wrap ell0 = Ok L -> Forall line_ok L ->
+  text_render cw s width align wrap ell0 = LOk rows ->
+  text_render_g P bs width align wrap (map enc ell0) = LOk (map F rows) /\
+  text_rows_g P bs width align wrap (map enc ell0) = LOk (zlen rows) /\
+  Forall (fun rb => p_cw P rb 0 (zlen rb) = Ok width) (map F rows).
+Proof.
+  intros EL Hok E. unfold text_render, text_render_g, text_rows_g in *.
+  rewrite g_layout_is_image, EL in *. cbn [gmap_result to_lres lbind] in *.
+  pose proof (render_lines_length cw s width L rows E) as Hlen.
+  split; [apply render_lines_sim; assumption|]. split.
+  - unfold gmap_layout, zlen in *. rewrite map_length. f_equal. lia.
+  - (* every str row is width columns wide: it passed the TextCanvas check and was padded *)
+    clear Hlen EL Hok. revert rows E. induction L as [|l L IH]; intros rows E; cbn [render_lines] in E.
+    + inversion E; constructor.
+    + destruct (render_line cw s width l) as [r| |] eqn:E1; cbn [lbind] in E; try discriminate.
+      destruct (render_lines cw s width L) as [rs| |] eqn:E2; cbn [lbind] in E; try discriminate.
+      inversion E; subst rows. cbn [map]. constructor; [|apply IH; reflexivity].
+      rewrite Hroww. f_equal. unfold render_line in E1.
+      destruct (trim_line cw s l 0 width) as [tl| |]; cbn [lbind] in E1; try discriminate.
+      destruct (render_segs s tl) as [r0| |]; cbn [lbind] in E1; try discriminate.
+      destruct (width <? sumw cw r0) eqn:Ew; [discriminate|]. inversion E1; subst r.
+      rewrite (sumw_app cw), (sumw_spaces cw), Hsp. lia.
 Qed.
 
 End GSim.
